@@ -93,7 +93,11 @@ Definition hlines_get (p : profile) (k : hkind2) (m : mem) (r : dref) : list str
   let nm := hgetter_name k in
   match hget_tag p k m r with
   | Val None => [line "get" (nm ++ " none")]
-  | Val (Some t) => line "get" (nm ++ " some " ++ sView (t_off t) (htref_size_of_val k t)) :: hlines_kind k m t
+  | Val (Some t) =>
+      let v := sView (t_off t) (htref_size_of_val k t) in
+      line "get" (nm ++ " some " ++ v ++ " bytes=" ++ v ++ " payload=" ++ sView (t_off t + 8) (htref_size_of_val k t - 8)
+                  ++ " header=@" ++ sN (t_off t) ++ " ptr=@" ++ sN (t_off t))
+      :: hlines_kind k m t
   | x => [line "get" (nm ++ " " ++ sRes (fun _ => "") x)]
   end.
 
